@@ -15,6 +15,9 @@ structure Cfg.Repaired (c : Cfg) : Prop where
   errorClears : c.errorClears = true
   openCancels : c.openCancels = true
   openClears : c.openClears = true
+  closeEarly : c.closeEarly = true
+  errorEarly : c.errorEarly = true
+  openEarly : c.openEarly = true
 
 /-! ## the pattern dictionary -/
 
@@ -249,6 +252,8 @@ theorem sendCore_retry {c : Cfg} (hc : c.Repaired) (s : State) (pk : Pk) (pat : 
 theorem forget_tt (s : State) :
     forget true true s = { s with timers := cancelAll s.timers s.patterns, patterns := [] } := rfl
 
+theorem forget_ff (s : State) : forget false false s = s := rfl
+
 @[simp] theorem dropLink_timers (s : State) : (dropLink s).timers = s.timers := by unfold dropLink; split <;> rfl
 @[simp] theorem dropLink_patterns (s : State) : (dropLink s).patterns = s.patterns := by unfold dropLink; split <;> rfl
 @[simp] theorem dropLink_log (s : State) : (dropLink s).log = s.log := by unfold dropLink; split <;> rfl
@@ -263,7 +268,7 @@ theorem step_shape {c : Cfg} (hc : c.Repaired) (s : State) (e : Ev) : Shape s e 
   unfold stepT
   cases e with
   | openLink nr =>
-    simp only [step, hc.openCancels, hc.openClears, forget_tt]
+    simp only [step, hc.openCancels, hc.openClears, hc.openEarly, Bool.and_self, forget_tt]
     exact Shape.openLink nr
   | setResend nr =>
     simp only [step]
@@ -329,11 +334,17 @@ theorem step_shape {c : Cfg} (hc : c.Repaired) (s : State) (e : Ev) : Shape s e 
         exact (Shape.tx _ l hl setpointPk c.defaultTimeout (Or.inr rfl)).cast (by simp [hl, mkTx])
       · simp [hcs]; exact Shape.same _
   | closeRest =>
-    simp only [step, hc.closeCancels, hc.closeClears, forget_tt]
+    simp only [step, hc.closeCancels, hc.closeClears, hc.closeEarly, Bool.and_self, forget_tt]
     exact (Shape.drop _ (Or.inl rfl)).cast (by unfold dropLink; split <;> simp_all)
   | linkError =>
-    simp only [step, hc.errorCancels, hc.errorClears, forget_tt]
+    simp only [step, hc.errorCancels, hc.errorClears, hc.errorEarly, Bool.and_self, forget_tt]
     exact (Shape.drop _ (Or.inr rfl)).cast (by unfold dropLink; split <;> simp_all)
+  | closeEnd =>
+    simp only [step, hc.closeEarly, Bool.not_true, Bool.and_false, forget_ff]; exact Shape.same _
+  | linkErrorEnd =>
+    simp only [step, hc.errorEarly, Bool.not_true, Bool.and_false, forget_ff]; exact Shape.same _
+  | openEnd =>
+    simp only [step, hc.openEarly, Bool.not_true, Bool.and_false, forget_ff]; exact Shape.same _
 
 /-! ## timers: steps only ever change the `st` of an existing timer -/
 
@@ -1027,9 +1038,9 @@ theorem session_end_dead {c : Cfg} (hc : c.Repaired) (s : State) (e : Ev)
     (he : e = .closeRest ∨ e = .linkError ∨ ∃ nr, e = .openLink nr) (r : Nat) : ReqDead (stepT c s e) r := by
   apply ReqDead.of_nil
   rcases he with rfl | rfl | ⟨nr, rfl⟩
-  · simp [stepT, step, forget, hc.closeClears]
-  · simp [stepT, step, forget, hc.errorClears]
-  · simp [stepT, step, forget, hc.openClears]
+  · simp [stepT, step, forget, hc.closeClears, hc.closeEarly]
+  · simp [stepT, step, forget, hc.errorClears, hc.errorEarly]
+  · simp [stepT, step, forget, hc.openClears, hc.openEarly]
 
 /-! ## retried until answered -/
 
@@ -1318,6 +1329,14 @@ theorem reliable_run {c : Cfg} (hc : c.Repaired) {s : State} (hl : ∀ l, s.link
 def QuietRun (c : Cfg) : State → Pattern → List Ev → Prop
   | _, _, [] => True
   | s, p, e :: rest => Quiet s p e ∧ QuietRun c (stepT c s e) p rest
+
+theorem quietRun_append (c : Cfg) (s : State) (p : Pattern) (a b : List Ev) :
+    QuietRun c s p (a ++ b) ↔ QuietRun c s p a ∧ QuietRun c (run c s a) p b := by
+  induction a generalizing s with
+  | nil => simp [QuietRun, run]
+  | cons e r ih =>
+    simp only [List.cons_append, QuietRun, ih, run_cons]
+    exact ⟨fun ⟨h1, h2, h3⟩ => ⟨⟨h1, h2⟩, h3⟩, fun ⟨⟨h1, h2⟩, h3⟩ => ⟨h1, h2, h3⟩⟩
 
 theorem sched_run {c : Cfg} (hc : c.Repaired) {s : State} (hI : Inv s) {r : Nat} {pk : Pk} {p : Pattern} {T j : Nat}
     (hs : Sched s r pk p T j) (evs : List Ev) (hq : QuietRun c s p evs) : ∃ j', Sched (run c s evs) r pk p T j' := by
